@@ -113,6 +113,18 @@ fn gen_any(rng: &mut Rng) -> Vec<u8> { let mut g = crate::jt::Gen { rng }; g.doc
 /// values that are wrong in a way a skipper that only counts brackets and quotes does not see, and right ones
 pub const JUNK: &[&[u8]] = &[b"[1 2]", b"[1,]", b"{\"k\" 1}", b"{1:2}", b"01", b"1x", b"\"\\q\"", b"\"a\x01b\"", b"[tru]", b"nul", b"-", b"1.", b"[,1]", b"{\"a\":1,}", b"{\"a\"}", b"[1:2]",
     b"\"\\ud800\"", b"\"\xff\"", b"tr", b"[\"a\" \"b\"]", b"{\"a\":[}]}", b"1e", b"+1", b"[1,2]", b"{\"q\":null}", b"\"ok\"", b"1.5e3", b"[[],{}]", b"\"\\u00e9\\n\""];
+/// scale: the members of the outermost container repeated a few hundred times (a long sequence / a map with repeated names);
+/// whether that is acceptable for the type is decided by serde_json like everything else
+pub fn repeat_members(rng: &mut Rng, text: &[u8]) -> Option<Vec<u8>> {
+    let (open, close) = (*text.first()?, *text.last()?);
+    if !((open == b'[' && close == b']') || (open == b'{' && close == b'}')) || text.len() < 3 || text.len() > 200 { return None; }
+    let inner = &text[1..text.len() - 1];
+    let times = *rng.pick(&[130usize, 254, 255, 256, 300, 520]);
+    let mut v = vec![open];
+    for i in 0..times { if i > 0 { v.push(b','); } v.extend_from_slice(inner); }
+    v.push(close);
+    Some(v)
+}
 /// insert a member with an unknown name whose value is taken from JUNK into some object of the text
 pub fn inject_unknown(rng: &mut Rng, text: &[u8]) -> Option<Vec<u8>> {
     let opens: Vec<usize> = text.iter().enumerate().filter(|(_, b)| **b == b'{').map(|(i, _)| i).collect();
@@ -319,8 +331,9 @@ pub fn record(args: &[String]) -> i32 {
             let bytesfam = matches!(e.name, "bytes" | "vec_bytebuf" | "struct_bytes" | "tup_bytes" | "map_string_bytebuf");
             // generated texts of the byte-buffer family keep every non-UTF-8 byte inside a byte-buffer string unless an unknown member was added
             let mut blobonly = bytesfam && !text.windows(4).any(|w| w == b"\"zz\"");
-            match rng.below(6) {
+            match rng.below(7) {
                 0 | 1 => {}
+                6 => { if let Some(t) = repeat_members(&mut rng, &text) { text = t; } }
                 2 => { if let Some(t) = inject_unknown(&mut rng, &text) { text = t; blobonly = false; } }
                 _ => { let mut g = crate::jt::Gen { rng: &mut rng }; text = g.mutate(&text); blobonly = false; }
             }
